@@ -3,7 +3,7 @@
 use super::build::*;
 use super::movie::{handler_of, sample_bytes, sample_entry, Codec, LSample};
 use super::tree::*;
-use std::rc::Rc;
+use std::sync::Arc;
 
 #[derive(Clone, Copy, Debug, PartialEq, Eq)]
 pub enum Base {
@@ -134,7 +134,7 @@ pub fn media_nodes(m: &LFragMovie) -> (Vec<Node>, Vec<(u32, Vec<FExpect>)>) {
             };
             let tfhd_node = Node::dynamic(
                 b"tfhd",
-                Rc::new(move |a: &Anchors| {
+                Arc::new(move |a: &Anchors| {
                     let mut t = th.clone();
                     if let Base::Explicit { at_moof } = base {
                         let moof = a.get(&ml).map(|x| x.0).unwrap_or(0);
@@ -158,7 +158,7 @@ pub fn media_nodes(m: &LFragMovie) -> (Vec<Node>, Vec<(u32, Vec<FExpect>)>) {
             let (ml, dl) = (moof_label.clone(), label.clone());
             let trun_node = Node::dynamic(
                 b"trun",
-                Rc::new(move |a: &Anchors| {
+                Arc::new(move |a: &Anchors| {
                     let mut t = tn.clone();
                     if t.data_offset.is_some() {
                         let moof = a.get(&ml).map(|x| x.0).unwrap_or(0) as i64;
